@@ -93,6 +93,8 @@ var recipeSites = []Site{
 	{"format.Stanza.Marshal.emits", pkgFormat, "Stanza", "Marshal", "emits:1", []string{"C05", "C07", "C01"}},
 	{"format.Header.MarshalWithoutMAC.emits", pkgFormat, "Header", "MarshalWithoutMAC", "emits:1", []string{"C05", "C07", "C03"}},
 	{"format.Header.Marshal.emits", pkgFormat, "Header", "Marshal", "emits:1", []string{"C05", "C07"}},
+	{"plugin.ParseRecipient.name", pkgPlugin, "", "ParseRecipient", "ret:0", []string{"C17", "C09"}},
+	{"plugin.ParseIdentity.name", pkgPlugin, "", "ParseIdentity", "ret:0", []string{"C17", "C09"}},
 	{"plugin.writeStanza.emits", pkgPlugin, "", "writeStanza", "emits:0", []string{"C16"}},
 	{"plugin.writeStanzaWithBody.emits", pkgPlugin, "", "writeStanzaWithBody", "emits:0", []string{"C16"}},
 	{"format.Stanza.Marshal.encoder", pkgFormat, "Stanza", "Marshal", "arg:(*format.WrappedBase64Encoder).Write:0", []string{"C05", "C07"}},
@@ -216,6 +218,12 @@ func runC05(p *Program, r *Result) {
 	}
 	r.Rule("R05.stream-nonce", "STREAM nonce layout: 11-byte big-endian counter (carry from index len-2 down to 0), flag value at the last byte", 3)
 	checkNonceLayout(p, r)
+	r.Rule("R05.parse", "every header the format allows is read: the parser's acceptance conditions are the specified ones (= R07.1)", 16)
+	if pf, rsf, ivf, df := r.anchor(pkgFormat, "", "Parse"), r.anchor(pkgFormat, "StanzaReader", "ReadStanza"), r.anchor(pkgFormat, "", "isValidString"), r.anchor(pkgFormat, "", "DecodeString"); pf != nil && rsf != nil && ivf != nil && df != nil {
+		checkCanonicalParse(p, r, pf, rsf, ivf, df)
+	}
+	r.Rule("R05.chunking", "a full buffer is flushed as a non-final chunk only when more data is pending (= R12.4): the chunking is the specified one", 1)
+	checkChunkFlushGuard(p, r)
 }
 
 // dumpRecipes prints everything the tables are compared with (developer aid
